@@ -104,6 +104,28 @@ def _sig_elt(x):
     return (ast.unparse(x), 0)
 
 
+def loop_head(n):
+    if isinstance(n, ast.For):
+        return f"for {ast.unparse(n.target)} in {ast.unparse(n.iter)}"
+    return f"while {ast.unparse(n.test)}"
+
+
+_HEADS = None
+
+
+def recorded_heads(key, variant):
+    """loop headers of the source the sidecar was written against (contracts/loop_heads.json, written by gen_loop_heads.py)"""
+    global _HEADS
+    if _HEADS is None:
+        import json, os
+        try:
+            with open(os.path.join(os.path.dirname(os.path.dirname(__file__)), "contracts", "loop_heads.json")) as fh:
+                _HEADS = json.load(fh)
+        except FileNotFoundError:
+            _HEADS = {}
+    return _HEADS.get(f"{key}@{variant}")
+
+
 def _collect_loops(body):
     """Pre-order list of For nodes (loop ordinals are positions in this list)."""
     loops = []
